@@ -13,7 +13,7 @@ CLAIMED = {
                   "and seeded mutants executed in isolated workers and by the binary, every execution validated as the end of "
                   "a deviation-free pipeline behaviour by a TLA+ trace specification",
         text="Pipeline.tla models the phases and the error gate; MC_Totality enumerates the inputs of the property's quantifier; "
-             "every execution is one event (verdict shape, exit status, signal, panic marker, wall time, size) that "
+             "every execution is one event (verdict shape, exit status, signal, panic marker, CPU time, size) that "
              "Trace_Pipeline must accept; crashes, stack overflows and hangs of a worker are attributed to the case by the "
              "supervisor and reported with the rendered input.",
         note="Soups are exhaustive to length 2 (quick) / 3 (thorough) only; mutants are random (seeded). One finding is recorded "
@@ -299,7 +299,7 @@ def main():
             "evidence_file": "/verif/evidence/%s.json" % pid,
             "replay_cmd_template": "bin/verif check %s --replay {path}" % pid,
             "engine": "tlc+harness",
-            "level_claimed": {"category": c["category"], "text": c["text"], "design_ref": "DESIGN.md section " + c["design_ref"]},
+            "level_claimed": {"category": c["category"], "text": c["text"] + (" " + ADDED[pid] if pid in ADDED else ""), "design_ref": "DESIGN.md section " + c["design_ref"]},
             "level_note": c["note"],
             "technique": c["technique"],
         })
@@ -332,6 +332,50 @@ def main():
 
 
 NOT_APPLICABLE = {}
+
+# what the second building session added to each check (appended to the level text; DESIGN.md section 12)
+ADDED = {
+    "C01": "Time limits are on CPU time of the worker / process tree, so machine load does not turn into a verdict. Added: "
+           "rule-family items (C04's families) and alias graphs as inputs, dense interface hierarchies to 40 interfaces, runs "
+           "of the binary without --dry-run and in both diagnostic formats.",
+    "C02": "Added: MC_AliasChain (alias chains across modules), MC_Collide arrangements through Trace_Repro, operation shapes "
+           "with attributes, attribute-only files, ten escaped string spellings, '/*/' block comments.",
+    "C03": "Added: MC_TwoRefs (two references of one arrangement resolved in one compilation), nested modules that repeat "
+           "their parent's name (A::A), MC_Collide arrangements.",
+    "C04": "Added: Inheritance.tla (transitive closure vs the recursive closure of interface.rs, TLC on every hierarchy <= 4/5 "
+           "interfaces, each compiled: E011 iff an inherited operation is redeclared, closure and operation lists equal), "
+           "attribute-list family (E026 et al. on lists of attributes), enumerator-order family, and injections: one rule "
+           "violation injected into a well-formed simulate-mode program (MC_Syntax_inject) must be reported there too.",
+    "C08": "Now 96 simulate-mode programs per quick run (1 500 thorough) incl. operation shapes with attributes and "
+           "attribute-only files.",
+    "C09": "Added: comment_spans (every doc comment part of every generated comment lies within the comment's lines, tags "
+           "start at their '@', link spans cover exactly the tag, identifiers exactly their spelling, comment lints point "
+           "into the comment) and MC_Notes (notes of a diagnostic each get their own correctly placed snippet).",
+    "C11": "Added: the generator-reply decoder of the binary driven through TLC-enumerated reply mutations (bad bool / level "
+           "/ UTF-8 / size at each field, cut after each field) validated by Trace_Driver.",
+    "C12": "Added: ReserveHuge (a reservation larger than the remaining space fails and changes nothing) and dirty spare "
+           "capacities 1, 2, 3, 5 for the growable target.",
+    "C13": "Added: MC_ManyLints - ten lint sites in two files present at once under every suppression of at most two of "
+           "them (TLC invariants RefEqOp, NonInterference, NoLeak): exactly the suppressed lints disappear, nothing leaks "
+           "to the twin file.",
+    "C14": "Added: MC_ManyLints_one in emit mode (the emitted records of a ten-site program under each suppression are "
+           "exactly the non-suppressed diagnostics in order), a missing generator and a reference directory holding "
+           "non-Slice files in the binary runs.",
+    "C15": "Added: interfaces used as bases across files, duplicated path spellings, seven generator arguments in the "
+           "repeated binary runs.",
+    "C16": "Added: text before / after an inline link on neighbouring elements (what one comment holds does not change "
+           "another), textual links, a tag naming an identifier that fits no parameter.",
+    "C17": "Added: the same file under three spellings (dir/./a.slice, link, absolute) in one list (MC_Files_dup3), "
+           "directories whose names end in .slice.",
+    "C18": "Added: behaviours okinfo / okwarn / oksource (replies carrying diagnostics of each level: exit status and stderr "
+           "follow the level), replies broken at each field, generators killed mid-reply, a generator that closes stdin and "
+           "floods stdout against a 4000-struct request (MC_DriverGen_flood), output directory states longer / shorter "
+           "(stale files), an error class with 256 diagnostics.",
+    "C19": "Added: a step through the binary - what each fake generator receives as arguments is what the parser returned.",
+    "C20": "Added: Visitor.tla (PreOrder over an abstract tree, TLC: every node once, parents before children, sibling order "
+           "kept, on every tree <= 6/7 nodes) is the definition Traversal instantiates, and Trace_Visitor validates the "
+           "recorded callback events of every program (one event per callback with file and tree position) against it.",
+}
 
 if __name__ == "__main__":
     main()
